@@ -136,9 +136,6 @@ func main() {
 	}
 
 	n := run.Pick(2000, 100000)
-	if os.Getenv("DBG_N") != "" {
-		fmt.Sscan(os.Getenv("DBG_N"), &n)
-	}
 	deadline := time.Now().Add(time.Duration(run.Pick(20, 90)) * time.Minute)
 	var skipped atomic.Int64
 	evid.Parallel(n, 0, func(i int) {
@@ -193,9 +190,6 @@ func genConfig(rng *rand.Rand) config {
 		{name: "n2v16", class: "tiny", set: true, nodes: 2, vals: 16},
 	}
 	ch := caps[rng.IntN(len(caps))]
-	if os.Getenv("DBG_NOP") != "" {
-		c.Backend = lab.BackendNop
-	}
 	if c.Backend == lab.BackendNop {
 		ch = caps[rng.IntN(2)]
 	}
